@@ -56,4 +56,4 @@ LEVEL_TEXT = ("Kernel-checked theorems for every domain size and every rational 
 
 
 # tie theorems (substrings of SLV.Gen.*Tie theorem names) this property's operators depend on
-TIE = ['OpinionRef_projection', 'Simplex_projection', 'normalize_prob_dist', 'max_uncertainty', 'uncertainty_maximized']
+TIE = ['OpinionRef_projection', 'Simplex_projection', 'normalize_prob_dist', 'max_uncertainty', 'uncertainty_maximized', 'gen_is_in_range_eq', 'gen_in_unit_interval_eq', 'gen_is_one_eq', 'gen_is_zero_eq', 'gen_check_unit_interval_eq', 'gen_check_is_one_eq']
